@@ -1893,8 +1893,9 @@ func TestIndependence(t *testing.T) {
 }
 
 // ---------------------------------------------------------------------------
-// fixed seeds: the minimal reproductions of the findings (regression seeds
-// once repaired; until then they are counted as known findings on every run)
+// fixed seeds: the minimal reproductions of the findings.  The repaired ones
+// (regression:*) are strict: the test fails even if a known: line matched the
+// signature.  The open ones are counted as known findings on every run.
 
 func TestSeeds(t *testing.T) {
 	if harness.E.Shard != 0 {
@@ -1907,22 +1908,27 @@ func TestSeeds(t *testing.T) {
 		inputs []input
 		stdout string
 		exit   int
+		strict bool
 	}
 	seeds := []seed{
-		{"model-stdout:compound-error-value", []string{"if .==1 then error({}) else . end", "one.json", "two.json"}, []input{js("one.json", "1\n"), js("two.json", "2\n")}, "2\n", 5},
-		{"model-exit:compound-error-value", []string{"error({})", "nofile", "one.json"}, []input{{Name: "nofile", Kind: "missing"}, js("one.json", "1\n")}, "", 2},
-		{"model-stdout:null-input-slurp-input", []string{"-nsc", "input", "one.json", "two.json"}, []input{js("one.json", "1\n"), js("two.json", "2\n")}, "[1,2]\n", 0},
-		{"model-stdout:named-argument-duplicate", []string{"-n", "--arg", "x", "1", "--arg", "x", "2", "$x"}, nil, "\"1\"\n", 0},
-		{"model-stdout:raw-input-empty", []string{"-R", ".", "empty"}, []input{{Name: "empty", Kind: "text", Data: ""}}, "", 0},
-		{"model-stdout", []string{"-rj", "--arg", "x", "-n", "--", ".,$x", "-c"}, []input{js("-c", "7\n")}, "7-n", 0},
-		{"model-exit", []string{".", "nofile", "bad", "one.json"}, []input{{Name: "nofile", Kind: "missing"}, {Name: "bad", Kind: "bad", Data: "a\n"}, js("one.json", "1\n")}, "1\n", 2},
+		// repaired: error values that are objects/arrays broke the error reporter
+		{"regression:compound-error-value", []string{"if .==1 then error({}) else . end", "one.json", "two.json"}, []input{js("one.json", "1\n"), js("two.json", "2\n")}, "2\n", 5, true},
+		{"regression:compound-error-value", []string{"error({})", "nofile", "one.json"}, []input{{Name: "nofile", Kind: "missing"}, js("one.json", "1\n")}, "", 2, true},
+		{"regression:compound-error-value", []string{"-c", "error([1]),2", "one.json", "two.json"}, []input{js("one.json", "1\n"), js("two.json", "2\n")}, "", 5, true},
+		// repaired: -R over empty input produced one empty string
+		{"regression:raw-input-empty", []string{"-R", ".", "empty"}, []input{{Name: "empty", Kind: "text", Data: ""}}, "", 0, true},
+		{"regression:raw-input-empty", []string{"-R", ".", "empty", "nl"}, []input{{Name: "empty", Kind: "text", Data: ""}, {Name: "nl", Kind: "text", Data: "\n"}}, "\"\"\n", 0, true},
+		{"model-stdout:null-input-slurp-input", []string{"-nsc", "input", "one.json", "two.json"}, []input{js("one.json", "1\n"), js("two.json", "2\n")}, "[1,2]\n", 0, false},
+		{"model-stdout:named-argument-duplicate", []string{"-n", "--arg", "x", "1", "--arg", "x", "2", "$x"}, nil, "\"1\"\n", 0, false},
+		{"model-stdout", []string{"-rj", "--arg", "x", "-n", "--", ".,$x", "-c"}, []input{js("-c", "7\n")}, "7-n", 0, true},
+		{"model-exit", []string{".", "nofile", "bad", "one.json"}, []input{{Name: "nofile", Kind: "missing"}, {Name: "bad", Kind: "bad", Data: "a\n"}, js("one.json", "1\n")}, "1\n", 2, true},
 	}
 	for i, s := range seeds {
 		r := runFq(s.argv, s.inputs, nil, nil)
 		harness.Count(harness.HashInts(1700, uint64(i)), true, "seed")
 		if string(r.Stdout) != s.stdout || r.Exit != s.exit {
 			msg := fmt.Sprintf("seed %q: exit %d stdout %q, want exit %d stdout %q (stderr %q)", s.argv, r.Exit, r.Stdout, s.exit, s.stdout, r.Stderr)
-			if harness.Violate(t.Name(), s.sig, msg, map[string]any{"argv": s.argv, "inputs": s.inputs}) {
+			if harness.Violate(t.Name(), s.sig, msg, map[string]any{"argv": s.argv, "inputs": s.inputs}) || s.strict {
 				t.Error(msg)
 			}
 		}
@@ -1936,9 +1942,9 @@ func TestSeeds(t *testing.T) {
 		harness.Count(harness.HashInts(1700, 100), true, "seed")
 		if !bytes.Equal(comb.Stdout, solo.Stdout) || comb.Exit != 2 {
 			msg := fmt.Sprintf("seed fq . nofile test.mp3: exit %d stdout %s; alone test.mp3 gives %s", comb.Exit, show(comb.Stdout), show(solo.Stdout))
-			if harness.Violate(t.Name(), "indep-stdout:after-open-failure", msg, "fq . nofile test.mp3") {
-				t.Error(msg)
-			}
+			// repaired (the input after an unopenable one was decoded twice): strict
+			harness.Violate(t.Name(), "regression:after-open-failure", msg, "fq . nofile test.mp3")
+			t.Error(msg)
 		}
 	}
 	{
